@@ -53,6 +53,17 @@ def ledFlow (s : LedState) (w : World) (ws : List String) (head : String) : LedS
       | some i => s.apply (.resize i nr.toNat! nc.toNat!)
       | none => (s, (0, 0))
     else (s, (0, 0))
+  | ["fresize", r, k, nr, nc] =>
+    -- a caught fault: while shrinking the tail is dropped all the same (the ledger operation is
+    -- the one of a completed resize); while growing, the `k` defaults made before the fault are
+    -- dropped again by the guard and the ledger state is the old one
+    let shrink := nr.toNat! * nc.toNat! ≤ sizeOf r.toNat!
+    if ok ∨ (head = "unwound" ∧ shrink) then
+      match s.idx r.toNat! with
+      | some i => s.apply (.resize i nr.toNat! nc.toNat!)
+      | none => (s, (0, 0))
+    else if head = "unwound" then (s, (k.toNat!, k.toNat!))
+    else (s, (0, 0))
   | ["clear", r] =>
     match s.idx r.toNat! with
     | some i => s.apply (.clear i)
